@@ -7,11 +7,12 @@ from engine.cfg import CFG, normalise_compare, atoms, A
 from engine.model import src, stmt_key, dotted
 from engine import pat
 from rules import roles
-from engine.util import own_nodes, calls_with_nodes, where
+from engine.util import own_nodes, calls_with_nodes, where, optional_numeric_params, truthiness_uses
 
 RULES = {
     "R-13.1": "no raise is reachable after the transfer's commit: inside Inbound.process_message, and in every driver after a process_message call that returned True",
     "R-13.2": "failure leaves the zone untouched: rollback in __exit__, rollback before the AXFR-style replacement writer, delete_exact for IXFR deletions, RFC 1982 serial comparison, out-of-zone names skipped, nothing applied after the final SOA",
+    "R-13.4": "optional serial / timeout parameters of the transfer code are tested for presence by identity with None, never by truthiness (serial 0 is a valid base serial, reached after an RFC 1982 wrap)",
     "R-13.3": "both _inbound_xfr twins drive the transfer inside `with Inbound(...)`, parse with xfr/one_rr_per_rrset(IXFR)/multi/tsig_ctx, and inbound_xfr maps UseTCP to a TCP retry",
 }
 PM = "dns.xfr.Inbound.process_message"
@@ -204,6 +205,19 @@ def run(model, rep, tier):
         okk = bool(hs) and all(" ".join(src(h).split()).endswith("if udp_mode == UDPMode.ONLY: raise") for h in hs)
         rep.check(okk, "R-13.3", qn, where(f, f.node), "UseTCP falls through to the TCP attempt unless UDP-only was requested", "UseTCP is no longer mapped to a TCP retry", stmt="usetcp-retry")
     rep.assume("Transaction.commit/rollback semantics are those decided under C10; a failing commit() itself raises before anything is published")
+    # ---------------------------------------------------------------- R-13.4
+    n_opt = 0
+    for f in sorted(model.all_functions(), key=lambda g: g.qualname):
+        if not f.module.name.startswith(("dns.xfr",)):
+            continue
+        names = optional_numeric_params(f) | {p_ for p_ in f.params() if p_ in ("serial", "timeout", "lifetime", "expiration")}
+        if not names:
+            continue
+        n_opt += len(names)
+        for (n_, nm, how) in truthiness_uses(f.node, names):
+            rep.bad("R-13.4", f.qualname, where(f, n_), f"`{nm}` is an optional number and 0 is a legitimate value, but it is {how}: 0 is taken for 'absent' (an IXFR from serial 0 is refused)", stmt=f"presence {nm}")
+    rep.floor("R-13.4-optional", n_opt, 1)
+    rep.ok("R-13.4", "dns.xfr", "-", f"{n_opt} optional numeric parameters are only ever tested with `is None` / `is not None`", stmt="presence-tests")
     rep.meta["explanation"] = (
         "Commit-last typestate on the CFG of Inbound.process_message and of every driver (with the boolean result propagated through the loop test), "
         "plus dominance rules for the guards that must precede any zone mutation. Convergence to the server's version for all streams is NOT decided.")
@@ -220,6 +234,8 @@ def _blocks(fn):
 
 
 WITNESSES = [
+    {"id": "c13-serial-zero-taken-for-absent", "rule": "R-13.4", "file": "dns/xfr.py", "expect": "fires",
+     "old": "            if serial is None:\n                raise ValueError(\"a starting serial must be supplied for IXFRs\")", "new": "            if not serial:\n                raise ValueError(\"a starting serial must be supplied for IXFRs\")"},
     {"id": "c13-commit-in-loop", "rule": "R-13.1", "file": "dns/xfr.py", "expect": "fires",
      "old": "                    self.txn.replace(name, rdataset)\n                    self.done = True\n", "new": "                    self.txn.replace(name, rdataset)\n                    self.txn.commit()\n                    self.txn = None\n                    self.done = True\n"},
     {"id": "c13-delete-not-exact", "rule": "R-13.2", "file": "dns/xfr.py", "expect": "fires",
